@@ -351,7 +351,7 @@ func Main() {
 		nviol++
 		h := sha256.Sum256([]byte(x.v.Key + x.unit))
 		path := filepath.Join(*replays, fmt.Sprintf("%s-%s.json", p.ID, hex.EncodeToString(h[:5])))
-		rp := Replay{Property: p.ID, Unit: x.unit, Tier: *tier, Key: x.v.Key, Violation: x.v.Msg, Cost: x.v.Cost, Choices: x.v.Choices, Trace: x.v.Trace, Detail: x.v.Detail}
+		rp := Replay{Property: p.ID, Unit: x.unit, Tier: *tier, Key: x.v.Key, Violation: x.v.Msg, Cost: x.v.Cost, Choices: x.v.Choices, Trace: trimTrace(x.v.Trace), Detail: x.v.Detail}
 		js, _ := json.MarshalIndent(rp, "", " ")
 		os.WriteFile(path, js, 0o644)
 		fmt.Printf("finding key=%s unit=%s cost=%d: %s\n", x.v.Key, x.unit, x.v.Cost, x.v.Msg)
@@ -481,4 +481,15 @@ func doReplay(path string) int {
 	}
 	fmt.Fprintln(os.Stderr, "unit not found:", rp.Unit)
 	return 2
+}
+
+// trimTrace keeps the head and the tail of a very long trace (an execution cut by the step limit).
+func trimTrace(t []string) []string {
+	const keep = 1500
+	if len(t) <= 2*keep {
+		return t
+	}
+	out := append([]string{}, t[:keep]...)
+	out = append(out, fmt.Sprintf("... %d steps omitted ...", len(t)-2*keep))
+	return append(out, t[len(t)-keep:]...)
 }
